@@ -313,7 +313,7 @@ Proof.
   destruct (gen_column_in_table x cols1 c cols2 e ty txt Hcols Hg Ha Hd Hcls (proj1 Hn) HT He1 He2 Hpt)
     as (pre & c0 & sp1 & rest & -> & Hc0 & Hsp).
   exists (length pre), rest. intros Hns Hlast.
-  apply (set_gen_expr_printed (c_name c) pre c0 sp1 ([32] ++ c_T c ++ [32] ++ W_NOT_NULL_text (c_null c)) [32] (may_wrap e) rest);
+  apply (set_gen_expr_printed (c_name c) pre c0 sp1 32 (c_T c ++ [32] ++ W_NOT_NULL_text (c_null c)) [32] (may_wrap e) rest);
     try assumption; try reflexivity.
   destruct HT as (_ & _ & HTc). rewrite !forallb_app, HTc, not_null_text_nocomma. reflexivity.
 Qed.
